@@ -151,19 +151,26 @@ func (e *Exec) intrinsic(name string, fn *ssa.Function, args []Value) (Value, bo
 	case "strings.EqualFold":
 		return e.equalFold(e.asBytes(args[0], name), e.asBytes(args[1], name)), true
 	case "strings.TrimSpace":
+		// exact for ASCII strings (case split on the length and on the number of leading/trailing
+		// white-space characters); a string with a non-ASCII byte is outside the model
 		s := e.asBytes(args[0], name)
-		// exact only when no leading/trailing ASCII space or non-ASCII byte is present
-		n := e.reprCap(s)
-		var bad []*Term
-		for i := 0; i < n; i++ {
-			b := e.byteAt(s, i)
-			isSp := tb.Or(tb.Eq(b, tb.BV(' ', 8)), tb.And(tb.Ule(tb.BV(9, 8), b), tb.Ule(b, tb.BV(13, 8))), tb.Not(tb.Ult(b, tb.BV(0x80, 8))))
-			bad = append(bad, tb.And(tb.Ult(tb.BV(int64(i), 64), s.len), isSp))
+		if e.branch(tb.Not(e.allASCII(s))) {
+			e.fail("strings.TrimSpace on a string with non-ASCII bytes")
 		}
-		if e.branch(tb.Or(bad...)) {
-			e.fail("strings.TrimSpace on a string containing white space or non-ASCII bytes")
+		n := e.concretize(s.len, e.reprCap(s), "TrimSpace length")
+		isSp := func(b *Term) *Term {
+			return tb.Or(tb.Eq(b, tb.BV(' ', 8)), tb.And(tb.Ule(tb.BV(9, 8), b), tb.Ule(b, tb.BV(13, 8))))
 		}
-		return s, true
+		lead := 0
+		for lead < n && e.branch(isSp(e.byteAt(s, lead))) {
+			lead++
+		}
+		end := n
+		for end > lead && e.branch(isSp(e.byteAt(s, end-1))) {
+			end--
+		}
+		l := tb.BV(int64(end-lead), 64)
+		return (&SliceV{a: s.a, off: s.off + lead, len: l, gocap: l, isStr: true, isNil: tb.ff, minLen: end - lead}).withMax(end - lead), true
 	case "encoding/hex.EncodeToString":
 		return e.hexEncode(e.asBytes(args[0], name)), true
 	case "encoding/hex.DecodeString":
@@ -669,8 +676,41 @@ func (e *Exec) ecrecover(hash, sig *SliceV) Value {
 	return TupleV{r, e.nilErr()}
 }
 
+// fromHexExact models common.FromHex byte-exactly (strip 0x/0X, left-pad odd lengths with '0', decode
+// the longest valid prefix of hex pairs). Used where attester spellings are short literal strings.
+func (e *Exec) fromHexExact(s *SliceV) *SliceV {
+	tb := e.tb
+	n := e.concretize(s.len, e.reprCap(s), "FromHex length")
+	start := 0
+	if n >= 2 && e.branch(tb.And(tb.Eq(e.byteAt(s, 0), tb.BV('0', 8)), tb.Or(tb.Eq(e.byteAt(s, 1), tb.BV('x', 8)), tb.Eq(e.byteAt(s, 1), tb.BV('X', 8))))) {
+		start = 2
+	}
+	var cs []*Term
+	if (n-start)%2 == 1 {
+		cs = append(cs, tb.BV('0', 8))
+	}
+	for i := start; i < n; i++ {
+		cs = append(cs, e.byteAt(s, i))
+	}
+	a := &Alloc{}
+	k := 0
+	for ; 2*k+1 < len(cs); k++ {
+		h, ok1 := e.hexNibble(cs[2*k])
+		l, ok2 := e.hexNibble(cs[2*k+1])
+		if !e.branch(tb.And(ok1, ok2)) {
+			break
+		}
+		a.b = append(a.b, tb.BvOr(tb.Shl(h, tb.BV(4, 8)), tb.BvAnd(l, tb.BV(15, 8))))
+	}
+	ln := tb.BV(int64(k), 64)
+	return (&SliceV{a: a, len: ln, gocap: ln, isNil: tb.ff, minLen: k}).withMax(k)
+}
+
 func (e *Exec) fromHex(s *SliceV) *SliceV {
 	tb := e.tb
+	if e.exactFromHex {
+		return e.fromHexExact(s)
+	}
 	p := e.packBytes(s, strCap)
 	l := tb.UF("fromhex_len", 64, p)
 	e.addPC(tb.UleRaw(l, tb.BV(65, 64)))
@@ -715,8 +755,11 @@ func (e *Exec) accAddressFromBech32(s *SliceV) Value {
 	nilBytes := &SliceV{len: tb.BV(0, 64), gocap: tb.BV(0, 64), isNil: tb.tt}
 	sp := e.packBytes(s, strCap)
 	ok := tb.UF("b32ok", 0, sp)
-	// any bech32 string has at least 8 characters
-	e.addPC(tb.Implies(tb.Ult(s.len, tb.BV(8, 64)), tb.Not(ok)))
+	// any bech32 string has at least 8 characters (abstract account strings, whose validity is an
+	// uninterpreted predicate realised natively by the replay run-time, are exempt)
+	if !e.abstractAddr[sp.id] {
+		e.addPC(tb.Implies(tb.Ult(s.len, tb.BV(8, 64)), tb.Not(ok)))
+	}
 	if !e.branch(ok) {
 		return TupleV{nilBytes, e.newErr("invalid bech32 address")}
 	}
